@@ -1031,12 +1031,31 @@ class Ctx:
         sub0 = lambda e: z3.substitute(e, *pairs) if pairs else e
         dcache = {}
         sub = (lambda e: _div_to_uf(sub0(e), dcache)) if div_uf else sub0
-        for a in self.solver.assertions():
-            s2.add(sub(a))
-        for l in lemmas:
-            s2.add(sub(self._tobool(l)))
-        for e in extra:
-            s2.add(sub(e))
+        goal = [sub(self._tobool(l)) for l in lemmas] + [sub(e) for e in extra]
+        hyps = [sub(a) for a in self.solver.assertions()]
+        # cone of influence: keep only the hypotheses that (transitively) share a symbol with the goal. Dropping
+        # hypotheses is sound (unsat with fewer assumptions implies unsat with all) and keeps unrelated non-linear
+        # axioms (sqrt atoms of other quantities ...) out of the query.
+        ccache = {}
+        rel = set()
+        for g in goal:
+            rel |= _consts(g, ccache)
+        hc = [(_consts(h, ccache), h) for h in hyps]
+        kept, changed = [], True
+        used = [False] * len(hc)
+        while changed:
+            changed = False
+            for i, (cs, h) in enumerate(hc):
+                if not used[i] and (not cs or cs & rel):
+                    used[i] = True
+                    kept.append(h)
+                    if not cs <= rel:
+                        rel |= cs
+                        changed = True
+        for h in kept:
+            s2.add(h)
+        for g in goal:
+            s2.add(g)
         if self.uf_unit_axioms:
             for a in dcache.get("_ax", []):  # unit/zero laws of the abstracted operators
                 s2.add(a)
@@ -1085,8 +1104,9 @@ class Ctx:
             return
         if self.result.reach.get(label):
             return
-        r = self._check(timeout=self.check_timeout_ms)
-        self.result.reach[label] = self.result.reach.get(label, False) or (r == "sat")
+        r = self._check(timeout=min(self.check_timeout_ms, 10000))
+        # only a refuted path condition (unsat) makes the harness vacuous; unknown is not evidence of vacuity
+        self.result.reach[label] = self.result.reach.get(label, False) or (r != "unsat")
 
     def note(self, s):
         if self.mode == "sym":
@@ -1141,6 +1161,12 @@ class Ctx:
         if a == b:
             return True
         return abs(a - b) <= self.atol + self.rtol * max(abs(a), abs(b))
+
+    def value(self, x):
+        """the real value of x without its NaN flag (for claims stated 'wherever the result is defined')"""
+        if self.mode == "sym" and isinstance(x, SR) and x.n is not None:
+            return SR(x.v)
+        return x
 
     def eq_value(self, a, b):
         """equality of the real values, ignoring the NaN flags (use under a not-NaN hypothesis)"""
@@ -1574,6 +1600,32 @@ class Ctx:
             self._obs_model = (m, md)
         m = self._obs_model[0]
         self.observed[name] = _eval_obs(m, value)
+
+
+def _consts(e, cache):
+    """set of names of the uninterpreted constants occurring in e"""
+    k = e.get_id()
+    if k in cache:
+        return cache[k]
+    out = set()
+    stack = [e]
+    seen = set()
+    while stack:
+        t = stack.pop()
+        i = t.get_id()
+        if i in seen:
+            continue
+        seen.add(i)
+        if i in cache and t is not e:
+            out |= cache[i]
+            continue
+        if z3.is_const(t):
+            if t.decl().kind() == z3.Z3_OP_UNINTERPRETED:
+                out.add(t.decl().name())
+        else:
+            stack.extend(t.children())
+    cache[k] = frozenset(out)
+    return cache[k]
 
 
 def cvc5_check(smt2, timeout_ms):
